@@ -1,13 +1,18 @@
 From Coq Require Import Arith List Bool.
 From RV Require Export Store.Store Store.Ops.
+From RV Require Import Store.Effects Store.EffectsInline.
 Import ListNotations.
 
 (* one observed call: kind of the operation, number of arguments, which arguments changed (any value, column, dtype,
    row label, list pointer or metadata field reachable from them), and for every mutable result which argument it
-   shares mutable state with (identity / shared memory / in-place mutation probes), if any.
-   copy = the result is documented as a copy (then it must share nothing). *)
+   shares mutable state with (identity / shared-memory / in-place mutation probes), if any.
+   copy = the result is documented as a copy (then it must share nothing).
+   ops  = the programs of the generated effect table (Tables.effects.c14_effects, by index) this call ran: the
+          reamber functions the harness called.  An observation of an operation the static analysis calls pure must
+          show no change; of one it calls owned, no sharing - the correspondence between the effect abstraction read
+          off the source and the implementation.  An empty list or an index outside the table fails (fail closed). *)
 Inductive c14case :=
-| CObs (k : opkind) (nargs : nat) (copy : bool) (changed : list bool) (aliases : list (option nat)).
+| CObs (k : opkind) (nargs : nat) (copy : bool) (changed : list bool) (aliases : list (option nat)) (ops : list nat).
 
 Record verdict := { corr_ok : bool; spec_ok : bool; wf_ok : bool }.
 
@@ -20,13 +25,23 @@ Fixpoint list_eqb {A} (eqb : A -> A -> bool) (a b : list A) : bool :=
   | _, _ => false
   end.
 
+Definition none_changed (changed : list bool) : bool := forallb negb changed.
+Definition none_shared (aliases : list (option nat)) : bool :=
+  forallb (fun a => match a with None => true | Some _ => false end) aliases.
+Definition in_table (ops : list nat) : bool :=
+  negb (Nat.eqb (length ops) 0) && forallb (fun i => Nat.ltb i (length effect_verdicts)) ops.
+Definition static_pure (ops : list nat) : bool := forallb (fun i => fst (verdict_of i)) ops.
+Definition static_owned (ops : list nat) : bool := forallb (fun i => snd (verdict_of i)) ops.
+
 Definition check (c : c14case) : verdict :=
   match c with
-  | CObs k nargs copy changed aliases =>
+  | CObs k nargs copy changed aliases ops =>
       let '(mc, ma) := model_outcome k nargs in
-      {| corr_ok := list_eqb Bool.eqb mc changed && (negb copy || list_eqb optnat_eqb ma aliases);
-         spec_ok := list_eqb Bool.eqb (repeat false nargs) changed
-                    && (negb copy || forallb (fun a => match a with None => true | Some _ => false end) aliases);
+      {| corr_ok := list_eqb Bool.eqb mc changed && (negb copy || list_eqb optnat_eqb ma aliases)
+                    && in_table ops
+                    && (negb (static_pure ops) || none_changed changed)
+                    && (negb (copy && static_owned ops) || none_shared aliases);
+         spec_ok := list_eqb Bool.eqb (repeat false nargs) changed && (negb copy || none_shared aliases);
          wf_ok := Nat.eqb (length changed) nargs |}
   end.
 
